@@ -1,7 +1,8 @@
 """C18 - a client refuses server-initiated actions it did not enable.
 
 bfs on sched-evt: BFS over client feature-toggle histories (request_x11 granted/denied,
-request_forward_agent, request_port_forward granted/denied, cancel_port_forward confirmed/refused) on two live
+request_forward_agent, request_port_forward granted/denied, cancel_port_forward confirmed/refused, a second
+forward requested with port 0 = server-allocated port and cancelled with the allocated port) on two live
 transports; in every state reached, every server-initiated action (global requests, channel opens
 of every kind, channel requests of every type) is executed on a fresh replay of the history and the
 client's complete reaction is compared with the reference table vmc/refs/clientgate.py.
@@ -18,8 +19,10 @@ META = {
                  "exhaustive menu of server-initiated actions, judged by a reference table",
     "text": "States = client toggle histories over {request_x11 granted, request_x11 denied, request_forward_agent, "
             "request_port_forward granted, request_port_forward denied, cancel_port_forward confirmed by the "
-            "server, cancel_port_forward answered with REQUEST_FAILURE} (every client call x every answer the "
-            "server can give to it): BFS to depth 4 "
+            "server, cancel_port_forward answered with REQUEST_FAILURE, request_port_forward with port 0 (the "
+            "server allocates and reports the port), cancel_port_forward of that forward by its allocated port} "
+            "(every client call x every answer the server can give to it; two forwards on one address, the "
+            "reference tracks the set of active forwards and allows forwarded-tcpip while it is non-empty): BFS to depth 4 "
             "merged on (x11/agent/tcp handler set in the implementation, reference state), and "
             "additionally every unmerged history of length <=2 (quick) / <=3 (thorough). In each, every server "
             "action: GLOBAL_REQUEST {tcpip-forward, cancel-tcpip-forward, keepalive@openssh.com, "
@@ -34,7 +37,7 @@ META = {
     "design_ref": "4/C18",
 }
 
-ADDR, PORT = "127.0.0.1", 4000
+ADDR, PORT, PORT0 = "127.0.0.1", G.PORT_FIXED, G.PORT_ALLOCATED
 
 GLOBALS = [
     ("tcpip-forward", (("str", b"0.0.0.0"), ("int", 8022))),
@@ -96,6 +99,14 @@ def do_toggle(p, srv, tog, accepted):
             p.tc.request_port_forward(ADDR, PORT)
         elif tog == "pf_cancel":
             p.tc.cancel_port_forward(ADDR, PORT)
+        elif tog == "pf0_ok":
+            # "port 0": the server allocates the listening port and reports it
+            srv.script["port_forward"] = PORT0
+            got = p.tc.request_port_forward(ADDR, 0)
+            if got != PORT0:
+                raise RuntimeError("C18 harness: port-0 forward reported port %r" % (got,))
+        elif tog == "pf0_cancel":
+            p.tc.cancel_port_forward(ADDR, PORT0)
         elif tog == "pf_cancel_refused":
             # the server's answer to the cancel leaves as REQUEST_FAILURE instead of REQUEST_SUCCESS
             p.ts.packetizer.hook = lambda pk, raw, n: [b"\x52"] if raw[0] == 81 else None
@@ -268,7 +279,7 @@ def main(tier):
                     "(implementation flags, reference state, server action) triples whose action was delivered "
                     "to a live, authenticated client and its reaction observed at quiescence",
                     ["server-initiated messages are well-formed (malformed ones belong to C38)",
-                     "one port forward address; canon merges histories with equal handler flags: "
+                     "one port forward address, two forwards (fixed port 4000; port 0 -> server allocates 4001); canon merges histories with equal handler flags: "
                      "_parse_channel_open branches only on the three handler fields and server_mode, "
                      "_parse_global_request only on server_mode, Channel._handle_request only on server_object",
                      "reaction judged at quiescence of both transports"])
